@@ -60,7 +60,9 @@ AppendAlias ==
   /\ IF ArrRank # 1 \/ ~Numeric \/ Len(dims) > 0 \/ arr.unit = -1 THEN Reject("AppendAlias", 0, v)
      ELSE Ok("AppendAlias", 0, v, <<Dim("alias")>>, arr)
 
-\* data-frame dimension: column 0 / 1, no column (NONE = whole frame), or a column that does not exist (9)
+\* data-frame dimension: column 0 / 1, no column (NONE = whole frame), a column that does not exist (9), or the column index
+\* just past the last column (2 = number of columns): the library accepts that one (its pre-check is "index > number of columns");
+\* modelled as the code behaves (named deviation BoundaryColumn) - the descriptor reads back the index it was given
 AppendFrame(col) ==
   LET v == [x |-> col, y |-> 0, z |-> 0, w |-> 0] IN
   /\ Room /\ Len(dims) < MaxDims
@@ -113,7 +115,7 @@ Next ==
   \/ "Sampled" \in Acts /\ \E iv \in {1, -1, -2}, lab \in {0, 1}, un \in {0, 1, -1}, off \in {0, 1, 2} : AppendSampled(iv, lab, un, off)
   \/ "Range" \in Acts /\ \E t \in {1, -1, -2}, lab \in {0, 2}, un \in {0, 2, -1} : AppendRange(t, lab, un)
   \/ "Alias" \in Acts /\ AppendAlias
-  \/ "Frame" \in Acts /\ \E col \in {0, 1, NONE, 9} : AppendFrame(col)
+  \/ "Frame" \in Acts /\ \E col \in {0, 1, 2, NONE, 9} : AppendFrame(col)
   \/ "Delete" \in Acts /\ DeleteAll
   \/ "Setters" \in Acts /\ \E i \in 1..MaxDims, f \in {"labels", "interval", "offset", "ticks", "label", "unit"}, val \in {-2, -1, 0, 1, 2} : Set(i, f, val)
   \/ "Arr" \in Acts /\ \E f \in {"label", "unit", "data"}, val \in {-1, 0, 1, 2} : SetArr(f, val)
